@@ -92,15 +92,22 @@ def arc_center(
     # start with initial results
     result = {"center": center, "radius": radius}
     if return_normal:
+        # take the cross product of the edges scaled to the shortest
+        # edge: the raw product is of the order of `radius ** 2` and
+        # falls below the zero threshold of `unitize` for small arcs
         if points.shape == (3, 2):
             # for 2D arcs still use the cross product so that
             # the sign of the normal vector is consistent
             result["normal"] = util.unitize(
-                np.cross(np.append(-vectors[1], 0), np.append(vectors[2], 0))
+                np.cross(
+                    np.append(-vectors[1], 0) / scale, np.append(vectors[2], 0) / scale
+                )
             )
         else:
             # otherwise just take the cross product
-            result["normal"] = util.unitize(np.cross(-vectors[1], vectors[2]))
+            result["normal"] = util.unitize(
+                np.cross(-vectors[1] / scale, vectors[2] / scale)
+            )
 
     if return_angle:
         # vectors from points on arc to center point
